@@ -32,10 +32,15 @@ static const double TOL_RT_NM = 14;      // documented 7 nm round trip, |h| <= 5
 static const double TOL_LOCAL = 32;      // local cartesian position / distances in eps * scale     (observed worst 5.8)
 
 struct EF { const char* name; double a, f; };
-static const EF ELL[8] = {
+static const EF ELL[21] = {
   {"WGS84", 6378137.0, 1 / 298.257223563}, {"sphere-1", 1.0, 0.0}, {"prolate-f=-1", 6.4e6, -1.0},
   {"oblate-f=1/2", 6.4e6, 0.5}, {"oblate-f=.99", 1.0, 0.99}, {"oblate-f=1e-10", 6.4e6, 1e-10},
-  {"prolate-f=-0.01", 6.4e6, -0.01}, {"prolate-f=-9", 6.4e6, -9.0}};
+  {"prolate-f=-0.01", 6.4e6, -0.01}, {"prolate-f=-9", 6.4e6, -9.0},
+  // deep thorough tier: intermediate and more extreme shapes, two scales
+  {"oblate-f=1/150", 6378137.0, 1 / 150.0}, {"oblate-f=0.1", 6.4e6, 0.1}, {"oblate-f=0.9", 6.4e6, 0.9}, {"oblate-f=0.999", 6.4e6, 0.999},
+  {"oblate-f=1e-5", 6.4e6, 1e-5}, {"prolate-f=-1/150", 6378137.0, -1 / 150.0}, {"prolate-f=-0.1", 6.4e6, -0.1}, {"prolate-f=-1/2", 6.4e6, -0.5},
+  {"prolate-f=-3", 6.4e6, -3.0}, {"prolate-f=-30", 6.4e6, -30.0}, {"prolate-f=-99", 6.4e6, -99.0},
+  {"a=1e-3,f=1/300", 1e-3, 1 / 300.0}, {"a=1e12,f=-1/300", 1e12, -1 / 300.0}};
 
 struct Env {
   int idx; const EF* ef; Geocentric earth; cart::Ell E;
@@ -52,10 +57,21 @@ struct Env {
 };
 
 static Q norm3(Q x, Q y, Q z) { return sqrtq(x * x + y * y + z * z); }
+// effect of one rounding error in e^2 sin^2(lat) on nu = a/sqrt(1 - e^2 sin^2 lat), as a length:  nu |e^2|/(2 w) max(cos, (1-e^2) sin)
+static Q fwd_cond(const cart::Ell& E, double lat) {
+  Q sp, cp; cart::sincosd(lat, sp, cp);
+  Q w = E.e2 > 0 ? E.e2m + E.e2 * cp * cp : 1 - E.e2 * sp * sp, nu = E.a / sqrtq(w);
+  return nu * fabsq(E.e2) / (2 * w) * (fabsq(cp) > E.e2m * fabsq(sp) ? fabsq(cp) : E.e2m * fabsq(sp));
+}
 static std::string pkey(const Env& v, const char* what, double X, double Y, double Z) {
   return std::string(what) + " " + v.ef->name + " (" + fx(X) + "," + fx(Y) + "," + fx(Z) + ")";
 }
 static double dmax(double a, double b) { return a > b ? a : b; }
+// every failure goes through here (C07_DEBUG=1 lists them all on stderr: ctx keeps only 4 examples per class)
+static void cfail(Ctx& ctx, const std::string& key, const std::string& msg, const mc::Fields& f = {}) {
+  if (getenv("C07_DEBUG")) { std::string t; for (auto& kv : f) t += " " + kv.first + "=" + kv.second; fprintf(stderr, "DBG %s ::%s :: %s\n", key.c_str(), t.c_str(), msg.c_str()); }
+  ctx.fail(key, msg, f);
+}
 
 // matrix checks shared by Geocentric and LocalCartesian: orthonormality and equality with a reference
 static void check_matrix(Ctx& ctx, const std::string& key, const mc::Fields& F0, const char* pfx, const std::vector<double>& M, const Q ref[9]) {
@@ -67,8 +83,8 @@ static void check_matrix(Ctx& ctx, const std::string& key, const mc::Fields& F0,
   for (int i = 0; i < 9; ++i) we = dmax(we, (double)fabsq((Q)M[i] - ref[i]));
   ctx.worst(std::string(pfx) + ".orthonormal_err_over_tol", wo / (TOL_M_ORTHO * EPS), key);
   ctx.worst(std::string(pfx) + ".enu_err_over_tol", we / (TOL_M_ENU * EPS), key);
-  if (!(wo <= TOL_M_ORTHO * EPS)) { mc::Fields F = F0; F.push_back({"kind", std::string(pfx) + "-not-orthonormal"}); ctx.fail(key + " M-ortho", "rotation matrix not orthonormal: max |M^T M - I| = " + fmt(wo / EPS) + " eps", F); }
-  if (!(we <= TOL_M_ENU * EPS)) { mc::Fields F = F0; F.push_back({"kind", std::string(pfx) + "-not-enu"}); ctx.fail(key + " M-enu", "rotation matrix differs from the east-north-up frame at the returned position by " + fmt(we / EPS) + " eps", F); }
+  if (!(wo <= TOL_M_ORTHO * EPS)) { mc::Fields F = F0; F.push_back({"kind", std::string(pfx) + "-not-orthonormal"}); cfail(ctx, key + " M-ortho", "rotation matrix not orthonormal: max |M^T M - I| = " + fmt(wo / EPS) + " eps", F); }
+  if (!(we <= TOL_M_ENU * EPS)) { mc::Fields F = F0; F.push_back({"kind", std::string(pfx) + "-not-enu"}); cfail(ctx, key + " M-enu", "rotation matrix differs from the east-north-up frame at the returned position by " + fmt(we / EPS) + " eps", F); }
 }
 
 // ------------------------------------------------------------------ one Cartesian point through Reverse
@@ -86,24 +102,27 @@ static void check_reverse(Ctx& ctx, Env& v, double X, double Y, double Z, const 
   std::string key = pkey(v, origin, X, Y, Z);
   Q R = sqrtq((Q)X * X + (Q)Y * Y), P = sqrtq((Q)X * X + (Q)Y * Y + (Q)Z * Z);
   const char* reg = region_name(v, R, fabsq((Q)Z), P);
-  mc::Fields F0{{"ellipsoid", v.ef->name}, {"region", reg}, {"origin", origin}};
+  // does S = e^4 p q / 4 of the cubic underflow (non-zero but below min/eps) in double?  p = (R/a)^2, q = (1-e^2)(Z/a)^2
+  bool sund = false;
+  if (v.ef->f != 0) { Q pp = (R / v.E.a) * (R / v.E.a), qq = v.E.e2m * ((Q)Z / v.E.a) * ((Q)Z / v.E.a), S = v.E.e2 * v.E.e2 * pp * qq / 4; sund = S > 0 && S < (Q)1e-292; }
+  mc::Fields F0{{"ellipsoid", v.ef->name}, {"region", reg}, {"origin", origin}, {"S_underflow", sund ? "yes" : "no"}};
   auto FF = [&](const char* kind) { mc::Fields F = F0; F.push_back({"kind", kind}); return F; };
   double lat = -777, lon = -777, h = -777, lat2 = -777, lon2 = -777, h2 = -777;
   std::vector<double> M(9, -777.0), M0, M10(10, -777.0);
   int sg = mc::crashed([&] { v.earth.Reverse(X, Y, Z, lat, lon, h); v.earth.Reverse(X, Y, Z, lat2, lon2, h2, M);
                              double t1, t2, t3; v.earth.Reverse(X, Y, Z, t1, t2, t3, M0); v.earth.Reverse(X, Y, Z, t1, t2, t3, M10); });
-  if (sg) { ctx.fail(key, "Reverse crashed with signal " + fmti(sg), FF("crash")); return; }
+  if (sg) { cfail(ctx, key, "Reverse crashed with signal " + fmti(sg), FF("crash")); return; }
   ctx.sig(std::hash<std::string>()(reg) ^ (std::isinf(h) ? 77 : 0));
   if (!mc::same_bits(lat, lat2) || !mc::same_bits(lon, lon2) || !mc::same_bits(h, h2))
-    ctx.fail(key, "Reverse with and without the matrix argument disagree", FF("overload-differs"));
-  if (!M0.empty()) ctx.fail(key, "matrix argument of length 0 was resized", FF("matrix-size"));
-  for (double m : M10) if (m != -777.0) { ctx.fail(key, "matrix argument of length 10 was written", FF("matrix-size")); break; }
+    cfail(ctx, key, "Reverse with and without the matrix argument disagree", FF("overload-differs"));
+  if (!M0.empty()) cfail(ctx, key, "matrix argument of length 0 was resized", FF("matrix-size"));
+  for (double m : M10) if (m != -777.0) { cfail(ctx, key, "matrix argument of length 10 was written", FF("matrix-size")); break; }
   // ranges
-  if (!(std::isfinite(lat) && std::fabs(lat) <= 90)) { ctx.fail(key, "latitude " + fmt(lat) + " outside [-90,90]", FF("lat-range")); return; }
-  if (!(std::isfinite(lon) && std::fabs(lon) <= 180)) { ctx.fail(key, "longitude " + fmt(lon) + " outside [-180,180]", FF("lon-range")); return; }
-  if (std::isnan(h) || h == -INFINITY) { ctx.fail(key, "height " + fmt(h), FF("h-nan")); return; }
+  if (!(std::isfinite(lat) && std::fabs(lat) <= 90)) { cfail(ctx, key, "latitude " + fmt(lat) + " outside [-90,90]", FF("lat-range")); return; }
+  if (!(std::isfinite(lon) && std::fabs(lon) <= 180)) { cfail(ctx, key, "longitude " + fmt(lon) + " outside [-180,180]", FF("lon-range")); return; }
+  if (std::isnan(h) || h == -INFINITY) { cfail(ctx, key, "height " + fmt(h), FF("h-nan")); return; }
   // longitude = atan2(Y, X); 0 on the axis
-  if (X == 0 && Y == 0) { if (lon != 0) ctx.fail(key, "longitude " + fmt(lon) + " on the rotation axis (documented: 0)", FF("lon-axis")); }
+  if (X == 0 && Y == 0) { if (lon != 0) cfail(ctx, key, "longitude " + fmt(lon) + " on the rotation axis (documented: 0)", FF("lon-axis")); }
   else {
     Q lr = atan2q((Q)Y, (Q)X) * 180 / M_PIq;
     double e = (double)(fabsq((Q)lon - lr) / fabsq(lr == 0 ? (Q)1 : lr));
@@ -111,11 +130,11 @@ static void check_reverse(Ctx& ctx, Env& v, double X, double Y, double Z, const 
     // a denormal longitude cannot carry relative accuracy
     double tol = TOL_LON * EPS + (double)((Q)1e-320 / fabsq(lr == 0 ? (Q)1 : lr));
     ctx.worst("reverse.lon_relerr_over_tol", e / tol, key);
-    if (!(e <= tol)) ctx.fail(key + " lon", "longitude " + fx(lon) + " differs from atan2(Y,X) = " + q128str(lr) + " by " + fmt(e / EPS) + " eps (relative)", FF("lon-value"));
+    if (!(e <= tol)) cfail(ctx, key + " lon", "longitude " + fx(lon) + " differs from atan2(Y,X) = " + q128str(lr) + " by " + fmt(e / EPS) + " eps (relative)", FF("lon-value"));
   }
   // tie-breaking / sign rules that follow from "nearest point": lat has the sign of Z; Z = 0 -> lat >= 0
   if (Z != 0 ? (lat != 0 && (lat > 0) != (Z > 0)) : (lat < 0))
-    ctx.fail(key + " latsign", "latitude " + fmt(lat) + " has the wrong sign for Z = " + fmt(Z), FF("lat-sign"));
+    cfail(ctx, key + " latsign", "latitude " + fmt(lat) + " has the wrong sign for Z = " + fmt(Z), FF("lat-sign"));
   // scale of round-off: the size of the point or of the ellipsoid, and the displacement that half an ulp of the returned
   // latitude itself stands for, |rho(lat) + h| * |lat| (this term matters only for extreme eccentricities, where the meridional
   // radius of curvature at the pole is a/(1-f) >> a; it is < 1.6 max(|P|,a) for every terrestrial ellipsoid)
@@ -128,26 +147,26 @@ static void check_reverse(Ctx& ctx, Env& v, double X, double Y, double Z, const 
   if (std::isinf(h)) {
     // |P| exceeds the double range: direction only
     ctx.count("reverse_h_infinite");
-    if (!std::isinf((double)P)) ctx.fail(key, "infinite height for a point at finite distance " + fmt((double)P), FF("h-inf"));
+    if (!std::isinf((double)P)) cfail(ctx, key, "infinite height for a point at finite distance " + fmt((double)P), FF("h-inf"));
     Q lr = atan2q((Q)Z, R) * 180 / M_PIq;
     double e = (double)fabsq((Q)lat - lr);
-    if (!(e <= 16 * EPS * 90)) ctx.fail(key + " farlat", "far-field latitude " + fx(lat) + " != atan2(Z,R) " + q128str(lr), FF("far-lat"));
+    if (!(e <= 16 * EPS * 90)) cfail(ctx, key + " farlat", "far-field latitude " + fx(lat) + " != atan2(Z,R) " + q128str(lr), FF("far-lat"));
   } else {
     // forward image of the answer in __float128
     Q Xr, Yr, Zr; cart::forward(v.E, lat, lon, (Q)h, Xr, Yr, Zr);
     double e = (double)norm3(Xr - X, Yr - Y, Zr - Z), tol = TOL_REV_POS * EPS * scale;
     ctx.worstf(std::string("reverse.position_err_over_tol.") + reg, e / tol, [&] { return key; });
-    if (!(e <= tol)) ctx.fail(key + " pos", "Forward(Reverse(P)) misses P by " + fmt(e) + " m = " + fmt(e / (EPS * scale)) + " eps*max(|P|,a); got lat " + fx(lat) + " lon " + fx(lon) + " h " + fx(h), FF("reverse-position"));
+    if (!(e <= tol)) cfail(ctx, key + " pos", "Forward(Reverse(P)) misses P by " + fmt(e) + " m = " + fmt(e / (EPS * scale)) + " eps*max(|P|,a); got lat " + fx(lat) + " lon " + fx(lon) + " h " + fx(h), FF("reverse-position"));
     // height of least magnitude
     const cart::Closest& c = v.closest(R, (Q)Z);
     double eh = (double)fabsq(fabsq((Q)h) - c.dist), tolh = TOL_REV_H * EPS * scale;
     ctx.worstf(std::string("reverse.height_err_over_tol.") + reg, eh / tolh, [&] { return key; });
-    if (!(eh <= tolh)) ctx.fail(key + " h", "|h| = " + fx(std::fabs(h)) + " but the nearest point of the ellipsoid is at distance " + q128str(c.dist) + " (difference " + fmt(eh / (EPS * scale)) + " eps*max(|P|,a))", FF("not-least-height"));
-    else if ((double)c.dist > tolh && (h < 0) != c.inside) ctx.fail(key + " hsign", "height " + fx(h) + " has the wrong sign (point is " + (c.inside ? "inside" : "outside") + ")", FF("h-sign"));
+    if (!(eh <= tolh)) cfail(ctx, key + " h", "|h| = " + fx(std::fabs(h)) + " but the nearest point of the ellipsoid is at distance " + q128str(c.dist) + " (difference " + fmt(eh / (EPS * scale)) + " eps*max(|P|,a))", FF("not-least-height"));
+    else if ((double)c.dist > tolh && (h < 0) != c.inside) cfail(ctx, key + " hsign", "height " + fx(h) + " has the wrong sign (point is " + (c.inside ? "inside" : "outside") + ")", FF("h-sign"));
     // documented lower bound h >= -a (1-e^2)/sqrt(1-e^2 sin^2 lat)  (stated for the oblate case; for prolate the axis bound -nu)
     if (v.ef->f >= 0) {
       Q hm = cart::hmin(v.E, lat);
-      if (!((Q)h >= hm - (Q)tolh)) ctx.fail(key + " hmin", "h = " + fx(h) + " below the documented bound " + q128str(hm), FF("h-below-bound"));
+      if (!((Q)h >= hm - (Q)tolh)) cfail(ctx, key + " hmin", "h = " + fx(h) + " below the documented bound " + q128str(hm), FF("h-below-bound"));
     }
   }
   // rotation matrix: orthonormal, and the ENU frame at the returned (lat, lon)
@@ -166,9 +185,9 @@ static void check_forward(Ctx& ctx, Env& v, double lat, double lon, double h, do
   double X2, Y2, Z2; std::vector<double> M(9, -777.0), M8(8, -777.0);
   X = Y = Z = -777;
   int sg = mc::crashed([&] { v.earth.Forward(lat, lon, h, X, Y, Z); v.earth.Forward(lat, lon, h, X2, Y2, Z2, M); double t1, t2, t3; v.earth.Forward(lat, lon, h, t1, t2, t3, M8); });
-  if (sg) { ctx.fail(key, "Forward crashed with signal " + fmti(sg), FF("crash")); return; }
-  if (!mc::same_bits(X, X2) || !mc::same_bits(Y, Y2) || !mc::same_bits(Z, Z2)) ctx.fail(key, "Forward with and without the matrix argument disagree", FF("overload-differs"));
-  for (double m : M8) if (m != -777.0) { ctx.fail(key, "matrix argument of length 8 was written", FF("matrix-size")); break; }
+  if (sg) { cfail(ctx, key, "Forward crashed with signal " + fmti(sg), FF("crash")); return; }
+  if (!mc::same_bits(X, X2) || !mc::same_bits(Y, Y2) || !mc::same_bits(Z, Z2)) cfail(ctx, key, "Forward with and without the matrix argument disagree", FF("overload-differs"));
+  for (double m : M8) if (m != -777.0) { cfail(ctx, key, "matrix argument of length 8 was written", FF("matrix-size")); break; }
   Q Xr, Yr, Zr; cart::forward(v.E, lat, lon, (Q)h, Xr, Yr, Zr);
   // scale of round-off: max(|P|, a) plus the effect of one rounding error in e^2 sin^2(lat) on nu = a/sqrt(1 - e^2 sin^2 lat),
   // d nu = nu e^2/(2 w) eps  (w = 1 - e^2 sin^2 lat; negligible, 0.003 a, for terrestrial ellipsoids; 50 a at the pole for f = 0.99)
@@ -178,7 +197,7 @@ static void check_forward(Ctx& ctx, Env& v, double lat, double lon, double h, do
   double scale = dmax((double)norm3(Xr, Yr, Zr), a) + (double)cnd;
   double e = (double)norm3(Xr - X, Yr - Y, Zr - Z), tol = TOL_FWD * EPS * scale;
   ctx.worst("forward.err_over_tol", e / tol, key);
-  if (!(e <= tol)) ctx.fail(key, "Forward = (" + fx(X) + "," + fx(Y) + "," + fx(Z) + ") differs from the closed form by " + fmt(e / (EPS * scale)) + " eps*max(|P|,a)", FF("forward-value"));
+  if (!(e <= tol)) cfail(ctx, key, "Forward = (" + fx(X) + "," + fx(Y) + "," + fx(Z) + ") differs from the closed form by " + fmt(e / (EPS * scale)) + " eps*max(|P|,a)", FF("forward-value"));
   Q ref[9]; cart::enu(lat, lon, ref);
   check_matrix(ctx, key, F0, "forward.M", M, ref);
   if (ctx.want_sample()) ctx.sample(key + " -> (" + fmt(X) + "," + fmt(Y) + "," + fmt(Z) + ")");
@@ -197,7 +216,7 @@ static void check_roundtrip(Ctx& ctx, Env& v, double lat, double lon, double h) 
   Q ds = hypotq(rho * dlat, nu * cp * dlon), err = hypotq(ds, (Q)h1 - (Q)h);
   double nm = (double)err * 1e9;
   ctx.worst("roundtrip.err_nm_over_tol", nm / TOL_RT_NM, key);
-  if (!(nm <= TOL_RT_NM)) ctx.fail(key, "Reverse(Forward(lat,lon,h)) differs by " + fmt(nm) + " nm (documented 7 nm): got lat " + fx(lat1) + " lon " + fx(lon1) + " h " + fx(h1), {{"ellipsoid", v.ef->name}, {"kind", "roundtrip-7nm"}});
+  if (!(nm <= TOL_RT_NM)) cfail(ctx, key, "Reverse(Forward(lat,lon,h)) differs by " + fmt(nm) + " nm (documented 7 nm): got lat " + fx(lat1) + " lon " + fx(lon1) + " h " + fx(h1), {{"ellipsoid", v.ef->name}, {"kind", "roundtrip-7nm"}});
   // true three-dimensional displacement, reported only
   Q A[3], B[3]; cart::forward(v.E, lat, lon, (Q)h, A[0], A[1], A[2]); cart::forward(v.E, lat1, lon1, (Q)h1, B[0], B[1], B[2]);
   ctx.worst("roundtrip.3d_err_nm(reported)", (double)norm3(A[0] - B[0], A[1] - B[1], A[2] - B[2]) * 1e9, key);
@@ -214,20 +233,21 @@ static void check_local(Ctx& ctx, Env& v, double lat0, double lon0, double h0, c
   LocalCartesian L2(12.0, 34.0, 56.0, v.earth); L2.Reset(lat0, lon0, h0);
   Q P0[3], M0[9]; cart::forward(v.E, lat0, lon0, (Q)h0, P0[0], P0[1], P0[2]); cart::enu(lat0, lon0, M0);
   double s0 = dmax((double)norm3(P0[0], P0[1], P0[2]), a);
+  const double c0 = (double)fwd_cond(v.E, lat0);
   {
     Ctx::Case cs(ctx);
     // origin -> (0,0,0); inspectors; Reset
     double x, y, z; L.Forward(lat0, lon0, h0, x, y, z);
     double e = (double)norm3(x, y, z);
     ctx.worst("local.origin_err_over_tol", e / (TOL_LOCAL * EPS * s0), okey);
-    if (!(e <= TOL_LOCAL * EPS * s0)) ctx.fail(okey + " origin", "origin maps to (" + fmt(x) + "," + fmt(y) + "," + fmt(z) + ")", FF("origin-not-zero"));
+    if (!(e <= TOL_LOCAL * EPS * s0)) cfail(ctx, okey + " origin", "origin maps to (" + fmt(x) + "," + fmt(y) + "," + fmt(z) + ")", FF("origin-not-zero"));
     double lonn = std::remainder(lon0, 360.0);
     if (L.LatitudeOrigin() != lat0 || std::remainder(L.LongitudeOrigin() - lonn, 360.0) != 0 || std::fabs(L.LongitudeOrigin()) > 180 || L.HeightOrigin() != h0 ||
         L.EquatorialRadius() != v.ef->a || L.Flattening() != v.ef->f)
-      ctx.fail(okey + " inspectors", "inspectors do not return the origin / ellipsoid", FF("inspectors"));
+      cfail(ctx, okey + " inspectors", "inspectors do not return the origin / ellipsoid", FF("inspectors"));
     if (L2.LatitudeOrigin() != L.LatitudeOrigin() || L2.LongitudeOrigin() != L.LongitudeOrigin() || L2.HeightOrigin() != L.HeightOrigin() ||
         L2.EquatorialRadius() != v.ef->a || L2.Flattening() != v.ef->f)
-      ctx.fail(okey + " reset-inspectors", "Reset did not reproduce the state of a freshly constructed object", FF("reset"));
+      cfail(ctx, okey + " reset-inspectors", "Reset did not reproduce the state of a freshly constructed object", FF("reset"));
     // M at the origin is the identity
     std::vector<double> M(9); L.Forward(lat0, lon0, h0, x, y, z, M);
     Q I[9] = {1, 0, 0, 0, 1, 0, 0, 0, 1};
@@ -242,15 +262,15 @@ static void check_local(Ctx& ctx, Env& v, double lat0, double lon0, double h0, c
     std::vector<double> M(9, -777.0), M7(7, -777.0);
     double x2, y2, z2;
     L.Forward(lat, lon, h, p.x[0], p.x[1], p.x[2]); L.Forward(lat, lon, h, x2, y2, z2, M);
-    if (!mc::same_bits(x2, p.x[0]) || !mc::same_bits(y2, p.x[1]) || !mc::same_bits(z2, p.x[2])) ctx.fail(key, "Forward with and without the matrix argument disagree", FF("overload-differs"));
-    { double t1, t2, t3; L.Forward(lat, lon, h, t1, t2, t3, M7); for (double m : M7) if (m != -777.0) { ctx.fail(key, "matrix argument of length 7 was written", FF("matrix-size")); break; } }
-    double scale = dmax((double)norm3(p.P[0], p.P[1], p.P[2]), s0);
+    if (!mc::same_bits(x2, p.x[0]) || !mc::same_bits(y2, p.x[1]) || !mc::same_bits(z2, p.x[2])) cfail(ctx, key, "Forward with and without the matrix argument disagree", FF("overload-differs"));
+    { double t1, t2, t3; L.Forward(lat, lon, h, t1, t2, t3, M7); for (double m : M7) if (m != -777.0) { cfail(ctx, key, "matrix argument of length 7 was written", FF("matrix-size")); break; } }
+    double scale = dmax((double)norm3(p.P[0], p.P[1], p.P[2]), s0) + (double)fwd_cond(v.E, lat) + c0;      // + the Forward conditioning of point and origin
     // reference: x = M0^T (P - P0)
     Q d[3] = {p.P[0] - P0[0], p.P[1] - P0[1], p.P[2] - P0[2]}, xr[3];
     for (int i = 0; i < 3; ++i) xr[i] = M0[i] * d[0] + M0[3 + i] * d[1] + M0[6 + i] * d[2];
     double e = (double)norm3(xr[0] - p.x[0], xr[1] - p.x[1], xr[2] - p.x[2]), tol = TOL_LOCAL * EPS * scale;
     ctx.worst("local.forward_err_over_tol", e / tol, key);
-    if (!(e <= tol)) ctx.fail(key + " fwd", "local Forward = (" + fx(p.x[0]) + "," + fx(p.x[1]) + "," + fx(p.x[2]) + ") differs from M0^T (P - P0) by " + fmt(e / (EPS * scale)) + " eps*scale", FF("local-forward"));
+    if (!(e <= tol)) cfail(ctx, key + " fwd", "local Forward = (" + fx(p.x[0]) + "," + fx(p.x[1]) + "," + fx(p.x[2]) + ") differs from M0^T (P - P0) by " + fmt(e / (EPS * scale)) + " eps*scale", FF("local-forward"));
     // M = M0^T . ENU(lat, lon)
     Q en[9], mr[9]; cart::enu(lat, lon, en);
     for (int i = 0; i < 3; ++i) for (int j = 0; j < 3; ++j) { mr[3 * i + j] = 0; for (int k = 0; k < 3; ++k) mr[3 * i + j] += M0[3 * k + i] * en[3 * k + j]; }
@@ -258,13 +278,13 @@ static void check_local(Ctx& ctx, Env& v, double lat0, double lon0, double h0, c
     // Reverse of the computed local coordinates: the geodetic answer must map (in __float128) back onto P
     double lat1, lon1, h1, lat2, lon2, h2; std::vector<double> MR(9, -777.0);
     L.Reverse(p.x[0], p.x[1], p.x[2], lat1, lon1, h1); L.Reverse(p.x[0], p.x[1], p.x[2], lat2, lon2, h2, MR);
-    if (!mc::same_bits(lat1, lat2) || !mc::same_bits(lon1, lon2) || !mc::same_bits(h1, h2)) ctx.fail(key, "Reverse with and without the matrix argument disagree", FF("overload-differs"));
-    if (!(std::isfinite(lat1) && std::fabs(lat1) <= 90 && std::isfinite(lon1) && std::fabs(lon1) <= 180 && std::isfinite(h1))) ctx.fail(key + " rev-range", "local Reverse returns lat " + fmt(lat1) + " lon " + fmt(lon1) + " h " + fmt(h1), FF("local-reverse-range"));
+    if (!mc::same_bits(lat1, lat2) || !mc::same_bits(lon1, lon2) || !mc::same_bits(h1, h2)) cfail(ctx, key, "Reverse with and without the matrix argument disagree", FF("overload-differs"));
+    if (!(std::isfinite(lat1) && std::fabs(lat1) <= 90 && std::isfinite(lon1) && std::fabs(lon1) <= 180 && std::isfinite(h1))) cfail(ctx, key + " rev-range", "local Reverse returns lat " + fmt(lat1) + " lon " + fmt(lon1) + " h " + fmt(h1), FF("local-reverse-range"));
     else {
       Q B[3]; cart::forward(v.E, lat1, lon1, (Q)h1, B[0], B[1], B[2]);
       double er = (double)norm3(B[0] - p.P[0], B[1] - p.P[1], B[2] - p.P[2]);
       ctx.worst("local.reverse_err_over_tol", er / tol, key);
-      if (!(er <= tol)) ctx.fail(key + " rev", "local Reverse(Forward(p)) is " + fmt(er / (EPS * scale)) + " eps*scale away from p: lat " + fx(lat1) + " lon " + fx(lon1) + " h " + fx(h1), FF("local-inverse"));
+      if (!(er <= tol)) cfail(ctx, key + " rev", "local Reverse(Forward(p)) is " + fmt(er / (EPS * scale)) + " eps*scale away from p: lat " + fx(lat1) + " lon " + fx(lon1) + " h " + fx(h1), FF("local-inverse"));
       cart::enu(lat1, lon1, en);
       for (int i = 0; i < 3; ++i) for (int j = 0; j < 3; ++j) { mr[3 * i + j] = 0; for (int k = 0; k < 3; ++k) mr[3 * i + j] += M0[3 * k + i] * en[3 * k + j]; }
       check_matrix(ctx, key + " revM", F0, "local.M", MR, mr);
@@ -273,7 +293,7 @@ static void check_local(Ctx& ctx, Env& v, double lat0, double lon0, double h0, c
     double a1, a2, a3; L2.Forward(lat, lon, h, a1, a2, a3);
     double b1, b2, b3; L2.Reverse(p.x[0], p.x[1], p.x[2], b1, b2, b3);
     if (!mc::same_bits(a1, p.x[0]) || !mc::same_bits(a2, p.x[1]) || !mc::same_bits(a3, p.x[2]) || !mc::same_bits(b1, lat1) || !mc::same_bits(b2, lon1) || !mc::same_bits(b3, h1))
-      ctx.fail(key + " reset", "object after Reset() differs from a freshly constructed one", FF("reset"));
+      cfail(ctx, key + " reset", "object after Reset() differs from a freshly constructed one", FF("reset"));
     pts.push_back(p);
     if (ctx.want_sample()) ctx.sample(key + " -> (" + fmt(p.x[0]) + "," + fmt(p.x[1]) + "," + fmt(p.x[2]) + ")");
   }
@@ -284,7 +304,7 @@ static void check_local(Ctx& ctx, Env& v, double lat0, double lon0, double h0, c
     for (size_t i = 0; i < pts.size(); ++i) for (size_t j = i + 1; j < pts.size(); ++j) {
       const Pt& p = pts[i]; const Pt& q = pts[j];
       Q dl = norm3((Q)p.x[0] - q.x[0], (Q)p.x[1] - q.x[1], (Q)p.x[2] - q.x[2]), dg = norm3(p.P[0] - q.P[0], p.P[1] - q.P[1], p.P[2] - q.P[2]);
-      double scale = dmax(dmax((double)norm3(p.P[0], p.P[1], p.P[2]), (double)norm3(q.P[0], q.P[1], q.P[2])), s0);
+      double scale = dmax(dmax((double)norm3(p.P[0], p.P[1], p.P[2]), (double)norm3(q.P[0], q.P[1], q.P[2])), s0) + (double)(fwd_cond(v.E, p.lat) + fwd_cond(v.E, q.lat));
       double r = (double)fabsq(dl - dg) / (TOL_LOCAL * EPS * scale);
       ++npairs;
       if (r > worst) { worst = r; wi = i; wj = j; }
@@ -292,27 +312,31 @@ static void check_local(Ctx& ctx, Env& v, double lat0, double lon0, double h0, c
     ctx.count("local_pairs", npairs);
     std::string key = okey + " pair #" + fmti((long long)wi) + "/#" + fmti((long long)wj);
     ctx.worst("local.pair_distance_err_over_tol", worst, key);
-    if (!(worst <= 1)) ctx.fail(okey + " pairs", "distance between points #" + fmti((long long)wi) + " and #" + fmti((long long)wj) + " not preserved: error " + fmt(worst * TOL_LOCAL) + " eps*scale", FF("distance-not-preserved"));
+    if (!(worst <= 1)) cfail(ctx, okey + " pairs", "distance between points #" + fmti((long long)wi) + " and #" + fmti((long long)wj) + " not preserved: error " + fmt(worst * TOL_LOCAL) + " eps*scale", FF("distance-not-preserved"));
   }
 }
 
 int main(int argc, char** argv) {
   Ctx ctx(argc, argv);
   const bool T = ctx.thorough();
-  const int NE = T ? 8 : 6;
+  const int NE = T ? 21 : 6;
   std::vector<Env*> envs; for (int i = 0; i < NE; ++i) envs.push_back(new Env(i));
-  ctx.bound("ellipsoids", T ? "(a,f) = WGS84, (1,0), (6.4e6,-1), (6.4e6,1/2), (1,0.99), (6.4e6,1e-10), (6.4e6,-0.01), (6.4e6,-9)" : "(a,f) = WGS84, (1,0), (6.4e6,-1), (6.4e6,1/2), (1,0.99), (6.4e6,1e-10)");
+  ctx.bound("ellipsoids", T ? "21 ellipsoids (a,f): WGS84, (1,0), (6.4e6, f) for f in {-1, 1/2, 1e-10, -0.01, -9, 0.1, 0.9, 0.999, 1e-5, -0.1, -1/2, -3, -30, -99}, (1,0.99), (6378137, +-1/150), (1e-3, 1/300), (1e12, -1/300)" : "(a,f) = WGS84, (1,0), (6.4e6,-1), (6.4e6,1/2), (1,0.99), (6.4e6,1e-10)");
 
   // ================================================================= Forward lattice (+ Reverse of every image)
   {
     ctx.sub("forward");
-    const double lats[] = {-90, -89.999999, -60, -30, -1e-10, 0, 1e-300, 30, 45, 60, 89.999999, 90, -45};
-    const double lons[] = {0, 45, 180, -90, 720.5};
-    ctx.bound("forward.lattice", "ellipsoids x 13 lat x 5 lon {0,45,180,-90,720.5} x 9 h {-a,-a/2,-1e3,0,1,1e4,5e6,1e12,1e20}; every image is also sent through Reverse");
+    std::vector<double> lats{-90, -89.999999, -60, -30, -1e-10, 0, 1e-300, 30, 45, 60, 89.999999, 90, -45};
+    std::vector<double> lons{0, 45, 180, -90, 720.5};
+    if (T) { for (double x : {89.9999999999, -89.9999999999, 1e-5, -1e-5, 15.0, 75.0, -75.0, 85.0, -15.0, 1.0, -89.0, 89.0}) lats.push_back(x);
+             for (double x : {-180.0, 179.9999999, 360.0, -720.5, 1e-300, 90.0, -45.0, 135.0, 1e-9}) lons.push_back(x); }
+    ctx.bound("forward.lattice", T ? "ellipsoids x 25 lat x 14 lon {0,45,180,-90,720.5,-180,179.9999999,360,-720.5,1e-300,90,-45,135,1e-9} x 14 h {-a,-a/2,-1e3,0,1,1e4,5e6,1e12,1e20,-0.9a,-0.1a,1e-6,a,1e300}; every image is also sent through Reverse"
+                                   : "ellipsoids x 13 lat x 5 lon {0,45,180,-90,720.5} x 9 h {-a,-a/2,-1e3,0,1,1e4,5e6,1e12,1e20}; every image is also sent through Reverse");
     for (Env* v : envs) for (double lat : lats) {
       if (!ctx.take()) continue;
       const double a = v->ef->a;
-      const double hs[] = {-a, -a / 2, -1e3, 0, 1, 1e4, 5e6, 1e12, 1e20};
+      std::vector<double> hs{-a, -a / 2, -1e3, 0, 1, 1e4, 5e6, 1e12, 1e20};
+      if (T) for (double x : {-0.9 * a, -0.1 * a, 1e-6, a, 1e300}) hs.push_back(x);
       for (double lon : lons) for (double h : hs) {
         double X, Y, Z; check_forward(ctx, *v, lat, lon, h, X, Y, Z);
         check_reverse(ctx, *v, X, Y, Z, "forward-image");
@@ -323,11 +347,14 @@ int main(int argc, char** argv) {
   {
     ctx.sub("roundtrip");
     std::vector<double> lats; for (int k = -36; k <= 36; ++k) lats.push_back(2.5 * k);
+    if (T) for (int k = -36; k < 36; ++k) { lats.push_back(2.5 * k + 1.25); lats.push_back(2.5 * k + 0.3); }
     for (double x : {89.9999, -89.9999, 1e-9, -1e-9, 1e-300, 45.000000001, 89.999999999, -89.999999999}) lats.push_back(x);
     std::vector<double> hs; for (int k = -10; k <= 10; ++k) hs.push_back(5e5 * k);
+    if (T) for (int k = -10; k < 10; ++k) hs.push_back(5e5 * k + 2.5e5);
     for (double x : {1.0, -1.0, 1e3, -1e3, 8848.0, -11000.0, 4999999.0, -4999999.0}) hs.push_back(x);
-    const double lons[] = {0, 45, 180, -90, 720.5, -179.999999, 1e-9};
-    ctx.bound("roundtrip.lattice", fmti((long long)lats.size()) + " lat x 7 lon x " + fmti((long long)hs.size()) + " h in [-5000 km, 5000 km], WGS84, error measured as documented (surface distance of (dlat,dlon) and dh)");
+    std::vector<double> lons{0, 45, 180, -90, 720.5, -179.999999, 1e-9};
+    if (T) for (double x : {-180.0, 90.0, 135.0, -45.0, 10.0, 359.0}) lons.push_back(x);
+    ctx.bound("roundtrip.lattice", fmti((long long)lats.size()) + " lat x " + fmti((long long)lons.size()) + " lon x " + fmti((long long)hs.size()) + " h in [-5000 km, 5000 km], WGS84, error measured as documented (surface distance of (dlat,dlon) and dh)");
     for (double lat : lats) {
       if (!ctx.take()) continue;
       for (double lon : lons) for (double h : hs) check_roundtrip(ctx, *envs[0], lat, lon, h);
@@ -336,14 +363,14 @@ int main(int argc, char** argv) {
   // ================================================================= all Cartesian triples
   {
     ctx.sub("reverse-lattice");
-    ctx.bound("reverse.lattice", T ? "X, Y, Z each in {0, +-1e-300, +-1e-160, +-1e-20, +-1e-5, +-1, +-a e^2/2, +-a e^2, +-b, +-a, +-1e7, +-1e20, +-0.9 and +-1.1 x (2a/eps), +-1e160, +-1e300, +-1.7e308}: all 33^3 triples x 8 ellipsoids (duplicates of an ellipsoid's alphabet replaced by neighbouring values)"
+    ctx.bound("reverse.lattice", T ? "X, Y, Z each in {0, +-1e-300, +-1e-160, +-1e-100, +-1e-50, +-1e-20, +-1e-10, +-1e-5, +-1, +-a e^2/2, +-a e^2, +-b, +-a/2, +-a, +-2a, +-1e7, +-1e12, +-1e20, +-0.9 and +-1.1 x (2a/eps), +-1e50, +-1e100, +-1e160, +-1e300, +-1.7e308}: all 49^3 triples x 21 ellipsoids (duplicates of an ellipsoid's alphabet replaced by neighbouring values)"
                                    : "X, Y, Z each in {0, +-1e-300, +-1e-20, +-1, +-a e^2/2, +-a e^2, +-a, +-1e7, +-1e20, +-1e300, +-1.7e308}: all 21^3 triples x 6 ellipsoids");
     for (Env* v : envs) {
       const double a = v->ef->a, ae2 = a * std::fabs(v->ef->f * (2 - v->ef->f)), b = a * (1 - v->ef->f), far = 2 * a / EPS;
       std::vector<double> pos;
       auto add = [&](double x) { while (std::find(pos.begin(), pos.end(), x) != pos.end() || x == 0) x = x == 0 ? 0.25 : x * 0.75; pos.push_back(x); };
       for (double x : {1e-300, 1e-20, 1.0, ae2 / 2, ae2, a, 1e7, 1e20, 1e300, 1.7e308}) add(x);          // quick: 10 magnitudes
-      if (T) for (double x : {1e-160, 1e-5, b, 0.9 * far, 1.1 * far, 1e160}) add(x);                      // thorough: 16 magnitudes
+      if (T) for (double x : {1e-160, 1e-5, b, 0.9 * far, 1.1 * far, 1e160, 1e-100, 1e-50, 1e-10, a / 2, 2 * a, 1e12, 1e50, 1e100}) add(x);   // thorough: 24 magnitudes
       std::vector<double> al{0.0}; for (double p : pos) { al.push_back(p); al.push_back(-p); }
       for (double X : al) for (double Y : al) {
         if (!ctx.take()) continue;
@@ -354,28 +381,33 @@ int main(int argc, char** argv) {
   // ================================================================= singular disc / axis segment and the evolute
   {
     ctx.sub("singular");
-    ctx.bound("singular.grid", "non-spherical ellipsoids: 33 radii k/32 of the cusp (a e^2 in the equatorial plane for oblate, |a^2-b^2|/b on the axis for prolate) x 9 offsets {0,+-1e-300,+-1e-9,+-1e-6,+-1e-3} across the singular set x 2 meridians; evolute: 33 parameters x 5 scalings {1-1e-3,1-1e-9,1,1+1e-9,1+1e-3} x both signs of Z");
+    ctx.bound("singular.grid", T ? "non-spherical ellipsoids: 257 radii k/256 of the cusp (a e^2 in the equatorial plane for oblate, |a^2-b^2|/b on the axis for prolate) x 25 offsets {0,+-1e-300,+-1e-100,+-1e-12,+-1e-9,+-1e-6,+-1e-3,+-1,+-1e3,+-a*{1e-158,1e-155,1e-152,1e-148}} across the singular set x 4 meridians; evolute: 513 parameters x 9 scalings {1, 1+-1e-12, 1+-1e-9, 1+-1e-6, 1+-1e-3} x both signs of Z x 2 meridians"
+                                 : "non-spherical ellipsoids: 33 radii k/32 of the cusp (a e^2 in the equatorial plane for oblate, |a^2-b^2|/b on the axis for prolate) x 9 offsets {0,+-1e-300,+-1e-9,+-1e-6,+-1e-3} across the singular set x 2 meridians; evolute: 33 parameters x 5 scalings {1-1e-3,1-1e-9,1,1+1e-9,1+1e-3} x both signs of Z");
     for (Env* v : envs) {
       if (v->ef->f == 0) continue;
       const Q a = v->E.a, b = v->E.b, A2 = fabsq(a * a - b * b);
       const bool obl = v->ef->f > 0;
       const double Rc = (double)(A2 / a), Zc = (double)(A2 / b);
-      const double offs[] = {0, 1e-300, -1e-300, 1e-9, -1e-9, 1e-6, -1e-6, 1e-3, -1e-3};
-      for (int k = 0; k <= 32; ++k) {
+      std::vector<double> offs{0, 1e-300, -1e-300, 1e-9, -1e-9, 1e-6, -1e-6, 1e-3, -1e-3};
+      if (T) for (double x : {1e-100, 1e-12, 1.0, 1e3, 1e-158 * v->ef->a, 1e-155 * v->ef->a, 1e-152 * v->ef->a, 1e-148 * v->ef->a}) { offs.push_back(x); offs.push_back(-x); }   // the last four: (o/a)^2 or S underflows
+      const int KR = T ? 256 : 32, KE = T ? 512 : 32, NM = T ? 4 : 2;
+      for (int k = 0; k <= KR; ++k) {
         if (!ctx.take()) continue;
-        for (double o : offs) for (int mer = 0; mer < 2; ++mer) {
+        for (double o : offs) for (int mer = 0; mer < NM; ++mer) {
           double R, Z;
-          if (obl) { R = Rc * k / 32; Z = o; } else { Z = Zc * k / 32; R = std::fabs(o); if (o < 0) Z = -Z; }
-          double X = mer ? R * 0.8 : R, Y = mer ? -R * 0.6 : 0;
+          if (obl) { R = Rc * k / KR; Z = o; } else { Z = Zc * k / KR; R = std::fabs(o); if (o < 0) Z = -Z; }
+          double X = mer == 0 ? R : mer == 1 ? R * 0.8 : mer == 2 ? -R : 0, Y = mer == 0 ? 0 : mer == 1 ? -R * 0.6 : mer == 2 ? 0 : R;
           check_reverse(ctx, *v, X, Y, Z, "singular-set");
         }
       }
-      for (int k = 0; k <= 32; ++k) {
+      std::vector<double> scl{1 - 1e-3, 1 - 1e-9, 1.0, 1 + 1e-9, 1 + 1e-3};
+      if (T) for (double x : {1 - 1e-6, 1 - 1e-12, 1 + 1e-12, 1 + 1e-6}) scl.push_back(x);
+      for (int k = 0; k <= KE; ++k) {
         if (!ctx.take()) continue;
-        Q t = M_PIq / 2 * k / 32, st, ct; sincosq(t, &st, &ct); if (k == 32) ct = 0;
-        for (double s : {1 - 1e-3, 1 - 1e-9, 1.0, 1 + 1e-9, 1 + 1e-3}) for (int sgn = -1; sgn <= 1; sgn += 2) {
+        Q t = M_PIq / 2 * k / KE, st, ct; sincosq(t, &st, &ct); if (k == KE) ct = 0;
+        for (double s : scl) for (int sgn = -1; sgn <= 1; sgn += 2) for (int mer = 0; mer < (T ? 2 : 1); ++mer) {
           double R = (double)(s * A2 / a * ct * ct * ct), Z = sgn * (double)(s * A2 / b * st * st * st);
-          check_reverse(ctx, *v, -R * 0.6, R * 0.8, Z, "evolute");
+          if (mer == 0) check_reverse(ctx, *v, -R * 0.6, R * 0.8, Z, "evolute"); else check_reverse(ctx, *v, R, 0, Z, "evolute");
         }
       }
     }
@@ -383,13 +415,19 @@ int main(int argc, char** argv) {
   // ================================================================= LocalCartesian
   {
     ctx.sub("local");
-    const std::vector<double> lats{-90, -45, -1e-9, 0, 30, 60, 90}, lons{0, 45, 180, -90, 720.5}, hs{-1e3, 0, 1e4, 5e6};
-    const double lat0s[] = {0, 45, -90, 90, -33.3}, lon0s[] = {0, 180, -77.5, 720.5}, h0s[] = {0, 1e4, -1e3};
-    ctx.bound("local.lattice", "ellipsoids x 60 origins (5 lat0 x 4 lon0 x 3 h0) x 140 points (7 lat x 5 lon x 4 h): Forward, Reverse, matrices, Reset, and ALL 9730 point pairs per origin");
+    std::vector<double> lats{-90, -45, -1e-9, 0, 30, 60, 90}, lons{0, 45, 180, -90, 720.5}, hs{-1e3, 0, 1e4, 5e6};
+    std::vector<double> lat0s{0, 45, -90, 90, -33.3}, lon0s{0, 180, -77.5, 720.5}, h0s{0, 1e4, -1e3};
+    if (T) { lats.push_back(89.9999); lats.push_back(-60); lons.push_back(-180); lons.push_back(-179.5);
+             for (double x : {89.999999, -89.999999, 1e-9, 60.0}) lat0s.push_back(x);
+             for (double x : {-180.0, 179.999999999, 90.0}) lon0s.push_back(x);
+             h0s.push_back(5e6); }
+    ctx.bound("local.lattice", T ? "ellipsoids x 252 origins (9 lat0 incl. both poles and +-89.999999 x 7 lon0 incl. 180, -180, 179.999999999, 720.5 x 4 h0) x 252 points (9 lat x 7 lon x 4 h): Forward, Reverse, matrices, Reset, and ALL 31626 point pairs per origin"
+                                 : "ellipsoids x 60 origins (5 lat0 x 4 lon0 x 3 h0) x 140 points (7 lat x 5 lon x 4 h): Forward, Reverse, matrices, Reset, and ALL 9730 point pairs per origin");
     for (Env* v : envs) for (double lat0 : lat0s) for (double lon0 : lon0s) for (double h0 : h0s) {
       if (!ctx.take()) continue;
-      double hh0 = v->ef->a == 1 ? h0 * 1e-7 : h0;
-      std::vector<double> hh = hs; if (v->ef->a == 1) for (double& x : hh) x *= 1e-7;
+      const double a = v->ef->a, hsc = a == 1 ? 1e-7 : (a < 1e6 || a > 1e7 ? a / 6.4e6 : 1);       // heights in proportion to the ellipsoid
+      double hh0 = h0 * hsc;
+      std::vector<double> hh = hs; if (hsc != 1) for (double& x : hh) x *= hsc;
       check_local(ctx, *v, lat0, lon0, hh0, lats, lons, hh);
     }
   }
